@@ -14,7 +14,7 @@ INFO = {
             "Struct(Byte, Prefixed(Byte, Const)), Error) combined as Select (all ordered pairs; triples in thorough), Optional, "
             "GreedyRange, Peek, Pointer (absolute 0/1/2, end-relative -1/-2, out of range; parse and build), Union (parsefrom None / "
             "index / name / expression) x start offsets {0,1,3} x every byte string over S6 up to length L (which contains, for every "
-            "member, inputs failing at every byte position inside it). non-trivial = the combinator returned and value+position were "
+            "member, inputs failing at every byte position inside it); an alternative/element that fails with a non-construct exception; Pointer with a target taken from a signed context value, judged for the interpreter and for generated code. non-trivial = the combinator returned and value+position were "
             "compared with the solo runs; distinct = (combinator, start, data)",
     "bounds": {"quick": {"L": 4, "select_arity": 2}, "thorough": {"L": 5, "select_arity": 3}},
     "trusted_base": ["the member constructs themselves, run in isolation (differential oracle)"],
@@ -31,6 +31,8 @@ MEMBERS = {
     "OneOf": ["OneOf", BYTE, [1]],
     "Nested": ["Struct", [["a", BYTE], ["b", ["Prefixed", BYTE, ["ConstB", b"\x01"], False]]]],
     "Error": ["Error"],
+    # fails after consuming a byte, and not with a ConstructError: the expression divides by the byte read (ZeroDivisionError on 00)
+    "Div": ["Struct", [["a", BYTE], ["c", ["Computed", ["bin", "//", ["k", 16], ["this", "a"]]]]]],
 }
 STARTS = [0, 1, 3]
 
@@ -48,6 +50,8 @@ def units(tier):
         us.append({"kind": "Optional", "members": [m]})
         if m != "Error":
             us.append({"kind": "GreedyRange", "members": [m]})
+        if m == "Div":
+            continue        # "any failure" is the contract of the alternatives and of repetition; Peek, Pointer and Union pass a foreign exception on
         us.append({"kind": "Peek", "members": [m]})
         for off in (0, 1, 2, -1, -2, 9):
             us.append({"kind": "Pointer", "members": [m], "offset": off})
@@ -55,12 +59,14 @@ def units(tier):
             for q in (0, 2):
                 us.append({"kind": "PointerAux", "members": [m], "offset": off, "auxpos": q})
             us.append({"kind": "PointerRoot", "members": [m], "offset": off})
+    for m in ("Short", "Byte", "VarInt", "Const"):
+        us.append({"kind": "PointerCtx", "members": [m]})
     for e in ("pointer-index", "check-index", "computed-then-stop", "peek-or-byte"):
         us.append({"kind": "GreedyRangeIdx", "elem": e, "members": []})
     for x in BIT_COMBS:
         for k in range(0, 8):
             us.append({"kind": "InBitwise", "comb": x, "head": k, "members": []})
-    for a, b in itertools.product([n for n in names if n != "Error"], repeat=2):
+    for a, b in itertools.product([n for n in names if n not in ("Error", "Div")], repeat=2):
         for pf in (None, 0, 1, "m1", "expr"):
             us.append({"kind": "Union", "members": [a, b], "parsefrom": pf})
             for anon in (0, 1):
@@ -398,6 +404,63 @@ def check_greedy_idx(unit, data, pos):
     return "ok", []
 
 
+_PCTX = {}
+
+
+def check_pointer_ctx(unit, data):
+    """the target is a context expression (a signed byte read just before): Struct(o/Int8sb, p/Pointer(this.o, member), t/Byte).
+    Contract from solo runs of the member at the target (o >= 0: absolute, o < 0: from the end); judged for the interpreter and,
+    where the interpreter accepts, for the generated code of compile() as well; build: the member's bytes land at the target"""
+    import construct as C
+    mname = unit["members"][0]
+    if mname not in _PCTX:
+        d = C.Struct("o" / C.Int8sb, "p" / C.Pointer(C.this.o, T.mk(MEMBERS[mname])), "t" / C.Byte)
+        try:
+            dc = d.compile()
+        except Exception:
+            dc = None
+        _PCTX[mname] = (d, dc, T.mk(MEMBERS[mname]))
+    d, dc, md = _PCTX[mname]
+    tsig = "PointerCtx(%s)" % mname
+    case = {"unit": unit, "members": unit["members"], "data": data, "start": 0, "op": "parse"}
+    out = []
+    if len(data) < 2:
+        return "nonproductive", []
+    o = data[0] - 256 if data[0] >= 128 else data[0]
+    target = o if o >= 0 else max(0, len(data) + o)
+    sr = solo(md, data, target)
+    want = ("ok", {"o": o, "p": sr[1], "t": data[1]}, 2) if sr[0] == "ok" else ("fail",)
+    got = run_comb(d, data, 0)
+    if got[0] in ("foreign", "hang"):
+        return "bad", [{"sig": "C09/parse-%s/%s" % (got[0], tsig), "case": case, "detail": "%s on %s: raised %s" % (tsig, data.hex(), got[1])}]
+    if (want[0] == "ok") != (got[0] == "ok"):
+        return "bad", [{"sig": "C09/pointer-target-differs/" + tsig, "case": case, "detail": "%s on %s: %r, the member alone at offset %d gives %r" % (tsig, data.hex(), got[:2], target, sr[:2])}]
+    if want[0] != "ok":
+        return "fail", []
+    if not T.eqv(got[1], want[1]) or got[2] != want[2]:
+        return "bad", [{"sig": "C09/pointer-target-differs/" + tsig, "case": case, "detail": "%s on %s: %r ending at %d, contract %r ending at 2" % (tsig, data.hex(), got[1], got[2], want[1])}]
+    if dc is not None:
+        gc = run_comb(dc, data, 0)
+        if gc[0] != "ok" or not T.eqv(gc[1], want[1]) or gc[2] != want[2]:
+            out.append({"sig": "C09/compiled-pointer-target-differs/" + tsig, "case": case, "detail": "%s on %s: generated code gives %r (position %r), interpreter and contract %r ending at 2" % (tsig, data.hex(), gc[:2], gc[2], want[1])})
+        # build the parsed value into a buffer of the same length: same bytes from both
+        v = T.denorm(want[1])
+        res = []
+        for dd in (d, dc):
+            s = io.BytesIO(bytes(len(data)))
+            try:
+                with watchdog(3):
+                    dd.build_stream(v, s)
+                res.append(("ok", s.getvalue(), s.tell()))
+            except Hang:
+                res.append(("hang",))
+            except Exception as e:
+                res.append(("exc", type(e).__name__))
+        if res[0][0] == "ok" and res[1] != res[0]:
+            out.append({"sig": "C09/compiled-pointer-build-differs/" + tsig, "case": dict(case, op="parse"), "detail": "%s build(%r): interpreter %r, generated code %r" % (tsig, v, res[0], res[1])})
+    return ("bad" if out else "ok"), out
+
+
 HOST = bytes([0x10, 0x11, 0x12, 0x13])
 
 
@@ -527,6 +590,15 @@ def run_unit(unit, tier):
         datas = sigma(L)
     if kind in ("PointerAux", "PointerRoot"):
         return run_pointer_stream(unit, tier, r, datas)
+    if kind == "PointerCtx":
+        for data in sigma(min(L, 4)) + [bytes([o & 0xff, 7, 1, 2, 3, 4]) for o in (-6, -5, -3, -2, -1, 0, 1, 2, 4, 5, 6, 7)]:
+            r.states += 1
+            oc, vs = check_pointer_ctx(unit, data)
+            r.case(nontrivial=oc == "ok", outcome=oc, transitions=3, validated=1)
+            for v in vs:
+                r.violation(v["sig"], v["case"], v["detail"])
+        r.sample({"combinator": "Pointer(this.o)", "member": unit["members"][0]}, cap=2)
+        return r
     if kind == "GreedyRangeIdx":
         for data in sigma(min(L, 3)):
             for pos in range(0, len(data) + 1):
@@ -587,6 +659,8 @@ def replay(case):
         return check_in_bitwise(unit, case["data"])[1]
     if unit["kind"] == "GreedyRangeIdx":
         return check_greedy_idx(unit, case["data"], case["start"])[1]
+    if unit["kind"] == "PointerCtx":
+        return check_pointer_ctx(unit, case["data"])[1]
     comb, mds = mk_comb(unit, case["members"])
     if unit["kind"] in ("PointerAux", "PointerRoot"):
         return check_pointer_stream(unit, case["members"], comb, mds, case["data"], case["start"], case["op"], eval(case["value"]))[1]
